@@ -359,7 +359,7 @@ def read_sfcf_multi(path, prefix, name_list, quarks_list=['.*'], corr_type_list=
                 for t in range(intern[name]['T']):
                     deltas[t].append(rep_data[t])
                 internal_ret_dict[key] = deltas
-                if name == name_list[0]:
+                if key == needed_keys[0]:
                     idl.append(rep_idl)
 
     if kwargs.get("check_configs") is True:
